@@ -482,6 +482,20 @@ Proof.
   destruct (applyx_sorted _ _ _ _ _ _ _ _ Hnd Hpall Eall) as (w2 & l2 & Es & _ & _). eauto.
 Qed.
 
+(* the model's release / release-peer call returns an error only for a peer it does not know, which
+   holds nothing and has nothing waiting *)
+Lemma err_idle tk w l s o s' outs ok : Rel14 tk w l s ->
+  (forall p a, o <> OAlloc p a) -> step s o = (s', outs, true, ok) -> idle_peer (op_peer o) w l = true.
+Proof.
+  intros (_ & _ & _ & [A B] & _) Hno E.
+  assert (Hnone : lookup (op_peer o) (peers s) = None).
+  { destruct o as [p a|p a|p]; [now destruct (Hno p a)| |]; simpl; unfold step in E;
+      (destruct (lookup p (peers s)) as [ps|]; [|reflexivity]); cbv zeta in E;
+      match type of E with context [run_pending ?s0 ?fl] =>
+        destruct (run_pending s0 fl) as [[? ?] ?] end; discriminate. }
+  unfold idle_peer. rewrite A, B. unfold waiting_of, alloc_of. rewrite Hnone. reflexivity.
+Qed.
+
 (* ---------- the stronger monitor accepts every history of the model ---------- *)
 Theorem monitor14x_run univ : forall ops s tk w l,
   Rel14 tk w l s ->
@@ -508,7 +522,9 @@ Proof.
       pose proof (rel14_stable _ _ _ _ HR') as Hst. rewrite Emt, Emp in Hst. rewrite Hst.
       specialize (IH s' _ _ _ HR'). rewrite Emt, Emp, Ent in IH. rewrite IH. reflexivity.
   - rewrite observe_outs, observe_err. destruct err.
-    + destruct (Herr eq_refl) as [-> ->]. cbn [sort_outs fold_right list_eqb andb]. now apply IH.
+    + pose proof (err_idle tk w l s (ORelease p a) s' outs true HR ltac:(intros; discriminate) E) as Hidle.
+      cbn [op_peer] in Hidle. rewrite Hidle.
+      destruct (Herr eq_refl) as [-> ->]. cbn [sort_outs fold_right list_eqb andb]. now apply IH.
     + destruct (sim_release tk w l s p a s' outs true HR E HP) as (w' & l' & Eap & HR' & _).
       destruct (sim_release_x tk w l s p a s' outs true HR E) as (r & Ex).
       pose proof (applyx_sound _ _ _ _ _ _ _ Ex) as Es. rewrite Eap in Es. inversion Es; subst r.
@@ -516,7 +532,9 @@ Proof.
       pose proof (rel14_stable _ _ _ _ HR') as Hst. rewrite Emt, Emp in Hst. rewrite Hst.
       specialize (IH s' _ _ _ HR'). rewrite Emt, Emp, Ent in IH. rewrite IH. reflexivity.
   - rewrite observe_outs, observe_err. destruct err.
-    + destruct (Herr eq_refl) as [-> ->]. cbn [sort_outs fold_right list_eqb andb]. now apply IH.
+    + pose proof (err_idle tk w l s (OReleasePeer p) s' outs true HR ltac:(intros; discriminate) E) as Hidle.
+      cbn [op_peer] in Hidle. rewrite Hidle.
+      destruct (Herr eq_refl) as [-> ->]. cbn [sort_outs fold_right list_eqb andb]. now apply IH.
     + destruct (sim_release_peer tk w l s p s' outs true HR E HP) as (w' & l' & Eap & Ewp & HR' & _).
       destruct (sim_release_peer_x tk w l s p s' outs true HR E) as (r & Ex).
       pose proof (applyx_sound _ _ _ _ _ _ _ Ex) as Es. rewrite Eap in Es. inversion Es; subst r.
